@@ -86,6 +86,9 @@ class SimWBEMServer:
         msg = cim[2]
         msgid = msg[1]['ID']
         sreq = msg[2]
+        if sreq[0] == 'SIMPLEEXPREQ':
+            # an export request (the peer acts as a listener)
+            return msgid, sreq[2]
         if sreq[0] != 'SIMPLEREQ':
             raise ValueError('not a SIMPLEREQ: %s' % sreq[0])
         call = sreq[2]
@@ -235,6 +238,16 @@ class SimWBEMServer:
     def handle_body(self, body):
         """CIM-XML request body -> CIM-XML response body (bytes)."""
         msgid, call = self.decode(body)
+        if call[0] == 'EXPMETHODCALL':
+            name = call[1]['NAME']
+            self.seen.append({'kind': 'export', 'name': name,
+                              'params': copy.deepcopy(call[2]),
+                              'outcome': 'ok'})
+            self.executed += 1
+            doc = X.CIM(X.MESSAGE(X.SIMPLEEXPRSP(X.EXPMETHODRESPONSE(name)),
+                                  msgid, '1.0'), '2.0', '2.0')
+            return ('<?xml version="1.0" encoding="utf-8" ?>\n' +
+                    doc.toxml()).encode('utf-8')
         if call[0] == 'IMETHODCALL':
             _, attrs, ns, plist = call
             name = attrs['NAME']
